@@ -188,4 +188,20 @@ PROPS = {
         "quick": {"runs": [q(deadline=50)], "floor": {"schemas": 1500, "instances": 6000, "distinct_nontrivial": 2500}},
         "thorough": {"runs": [q(deadline=1800, watchdog=5400)], "floor": {"schemas": 30000, "instances": 150000}},
     },
+    "C03": {
+        "eval_counter": "states",
+        "case_counter": "cases",
+        "rule": "case = productive grammar (regex with non-empty reference language; CFG whose reference BNF needed no pruning; JSON schema "
+                "family stressing numeric ranges / multipleOf / length bounds / formats / allOf intersections / unsatisfiable optional "
+                "sub-schemas; random schemas) x byte-complete vocabulary (V1, Vsyn, Vbpe) x extending-then-closing walk through the masks. "
+                "Direct monitor at every visited state: an empty mask, a NoExtensionBias / NoExtension stop in a non-accepting state, a mask "
+                "failure that is not a documented resource stop, or a rejected masked token is a violation. Exact monitor where a reference "
+                "model exists: the byte history must be a live prefix of the reference DFA / viable in the reference Earley recogniser. "
+                "Liveness half restated as bounded progress: from the last state a closing roll-out must reach an accepting stop within 400 "
+                "steps (success counted as witness, failure counted as inconclusive roll-out, never as a violation). evaluations = states "
+                "monitored. Non-trivial = walk of >=3 tokens; distinct by (grammar, history, vocabulary).",
+        "assumptions": ["TokenParser API used directly so that the precise StopReason is visible"],
+        "quick": {"runs": [q(deadline=50)], "floor": {"cases": 2500, "states": 30000, "distinct_nontrivial": 1500, "reference_liveness_checks": 5000}},
+        "thorough": {"runs": [q(deadline=1800, watchdog=5400)], "floor": {"cases": 50000, "states": 600000}},
+    },
 }
